@@ -16,9 +16,9 @@ from . import c12
 
 INITIAL = ['*', 'wl_pointer', '! .motion', '!']
 COMMANDS = ['filter wl_pointer', 'filter ! .motion', 'filter *', 'connection A', 'connection B', 'connection all',
-            'connection zz', 'filter [']
+            'connection zz', 'filter [', 'filter B:']
 CMD_REF = {'filter wl_pointer': ('wl_pointer', ['wl_pointer'], []), 'filter ! .motion': ('! .motion', [], ['.motion']),
-           'filter *': ('*', ['*'], [])}
+           'filter *': ('*', ['*'], []), 'filter B:': ('B:', ['B:'], [])}
 T = 9000000000
 
 
